@@ -1,4 +1,175 @@
-import ChemModel.Model.ReactionText
+/-
+C12 — reaction text is read exactly as written; printing and parsing are inverse.
+
+Model: `ChemModel/Model/ReactionText.lean` (mirrors `to_reaction`, `_parse_multiplicity`, `_is_inactive_term`,
+`Reaction.__init__/_init_stoich/__eq__/copy`, `StrPrinter`, `ReactionSystem.from_string`); separators and arrows are
+regenerated from the source into `Gen/Printing.lean` on every run.  The written notation (`Term`, `writeLine`,
+`count`, `Term.ok`, `tokOK`) is the specification side, at the end of the model file.
+-/
+import ChemModel.Proofs.ReactionText
+
 namespace ChemModel.C12
-theorem placeholder : True := trivial
+open ChemModel.ReactionText ChemModel.Gen
+
+/-- **Reading a written line.**  For EVERY written reaction — any number of terms per side, coefficients `n ≥ 1`
+written as `X` (n = 1), `n X` or `n * X`, repeated species, inactive groups `(n X)`, species keys that are arbitrary
+admissible strings (non-empty, no ASCII space, no `;`, not containing the arrow token, not the lone `+`, not starting
+or ending with white space; a key written without coefficient must not itself be a `( … )` closed at its last
+character; the key of an inactive group has balanced round parentheses) **including keys that begin with a bracket** —
+and every admissible arrow token (`->`, `=`, …): if the written reaction has a net effect, parsing the line succeeds
+and each of the four dictionaries holds exactly the written keys of that side and kind, each with the SUM of its
+written coefficients as a Python `int`; no key appears twice; no parameter. -/
+theorem parse_written (tok : Str) (reac prod : List Term) (htok : tokOK tok = true)
+    (hr : ∀ t ∈ reac, t.ok tok = true) (hp : ∀ t ∈ prod, t.ok tok = true) (heff : hasEffect reac prod = true) :
+    ∃ r, toReaction .none tok (writeLine tok reac prod) = .ok r ∧
+      (∀ k, dictGet r.reac k = coefOf (count false k reac)) ∧
+      (∀ k, dictGet r.prod k = coefOf (count false k prod)) ∧
+      (∀ k, dictGet r.inactReac k = coefOf (count true k reac)) ∧
+      (∀ k, dictGet r.inactProd k = coefOf (count true k prod)) ∧
+      (keysOf r.reac).Nodup ∧ (keysOf r.prod).Nodup ∧ (keysOf r.inactReac).Nodup ∧ (keysOf r.inactProd).Nodup ∧
+      r.param = none := by
+  have hr1 : ∀ t ∈ reac, 1 ≤ t.n := fun t ht => (Term.ok_spec (hr t ht)).2.1
+  have hp1 : ∀ t ∈ prod, 1 ≤ t.n := fun t ht => (Term.ok_spec (hp t ht)).2.1
+  refine ⟨parsedOf reac prod, ?_, get_sorted_actD reac hr1, get_sorted_actD prod hp1, get_sorted_inaD reac hr1,
+    get_sorted_inaD prod hp1, (sortDict_spec (nodup_actD reac)).1, (sortDict_spec (nodup_actD prod)).1,
+    (sortDict_spec (nodup_inaD reac)).1, (sortDict_spec (nodup_inaD prod)).1, rfl⟩
+  rw [toReaction_written .none htok hr hp, heff]
+  simp [allAllowed, Allowed.has]
+
+/-- a written reaction whose species all cancel is refused (the `check_any_effect` of the constructor), never misread -/
+theorem parse_written_no_effect (tok : Str) (reac prod : List Term) (htok : tokOK tok = true)
+    (hr : ∀ t ∈ reac, t.ok tok = true) (hp : ∀ t ∈ prod, t.ok tok = true) (heff : hasEffect reac prod = false) :
+    toReaction .none tok (writeLine tok reac prod) = .error .noEffect := by
+  rw [toReaction_written .none htok hr hp, heff]
+  simp [allAllowed, Allowed.has]
+
+/-- **Unknown keys are rejected — for every line whatsoever** (not only well-written ones): when an allowed-key list is
+given and the parser returns a reaction, every key of its four dictionaries is in the list. -/
+theorem unknown_key_rejected (ks : List Str) (tok line : Str) (r : Reaction)
+    (h : toReaction (.list ks) tok line = .ok r) : ∀ k ∈ r.keys, k ∈ ks := by
+  intro k hk
+  have := toReaction_keys_allowed h k hk
+  simpa [Allowed.has] using this
+
+/-- … and a written reaction is accepted with an allowed-key list exactly when all its keys are listed; otherwise the
+answer is the `Unknown substance_key` error (never a reaction with the key dropped). -/
+theorem written_with_allowed_keys (ks : List Str) (tok : Str) (reac prod : List Term) (htok : tokOK tok = true)
+    (hr : ∀ t ∈ reac, t.ok tok = true) (hp : ∀ t ∈ prod, t.ok tok = true) :
+    toReaction (.list ks) tok (writeLine tok reac prod) =
+      if allAllowed (.list ks) reac prod then
+        (if hasEffect reac prod then .ok (parsedOf reac prod) else .error .noEffect)
+      else .error .unknownKey :=
+  toReaction_written (.list ks) htok hr hp
+
+/-- `r.copy() == r` (the parameter is compared with a reflexive equality in the model; a NaN parameter is outside it) -/
+theorem copy_eq (r : Reaction) : Reaction.eq r.copy r = true := Reaction.eq_refl r
+
+
+/-- the arrow the `StrPrinter` writes for a class is the token `from_string` of that class splits on, and both are
+admissible tokens (regenerated from `printing/string.py` and `chemistry.py` on every run) -/
+theorem arrows_agree :
+    Printing.strReactionArrow = Printing.reactionToken ∧ Printing.strEquilibriumArrow = Printing.equilibriumToken ∧
+    tokOK Printing.reactionToken = true ∧ tokOK Printing.equilibriumToken = true := by decide
+
+/-- **print ∘ parse, reactions and equilibria without inactive groups.**  Let `r` hold, on both sides, dictionaries as
+`_init_stoich` builds them (keys strictly increasing in code-point order), with int coefficients `≥ 1` and admissible
+keys (any space-free key, bracket-leading ones included, not of the shape `( … )`), no inactive groups, a net effect
+(what the constructor demands) and no parameter.  Then `r.string()` is defined and parsing it gives back exactly the
+same dictionaries: the result compares equal to `r`. -/
+theorem print_parse_roundtrip (tok : Str) (r : Reaction) (htok : tokOK tok = true)
+    (hre : GoodDict tok r.reac) (hpr : GoodDict tok r.prod) (hir : r.inactReac = []) (hip : r.inactProd = [])
+    (heff : r.anyEffect = true) (hparam : r.param = none) :
+    ∃ s r', printReaction tok false false r = some s ∧ toReaction .none tok s = .ok r' ∧
+      r'.reac = r.reac ∧ r'.prod = r.prod ∧ r'.inactReac = [] ∧ r'.inactProd = [] ∧ Reaction.eq r' r = true := by
+  obtain ⟨s, hs, hparse⟩ := parse_print htok hre hpr hir hip heff
+  refine ⟨s, _, hs, hparse, rfl, rfl, rfl, rfl, ?_⟩
+  simp [Reaction.eq, dictEq_refl, hir, hip, hparam, dictEq]
+
+/-- … and with the parameter printed (`with_param=True`): the parser is handed exactly the printed parameter text `p`
+(non-empty, no `;`, no surrounding white space — e.g. any `%.3g` output), so the re-read parameter is the value that
+text denotes: the original parameter at the printed precision (C20 proves what `%.3g` text denotes). -/
+theorem print_parse_roundtrip_param (tok : Str) (r : Reaction) (p : Str) (htok : tokOK tok = true)
+    (hre : GoodDict tok r.reac) (hpr : GoodDict tok r.prod) (hir : r.inactReac = []) (hip : r.inactProd = [])
+    (heff : r.anyEffect = true) (hparam : r.param = some p) (hpt : Tight p) (hps : ';' ∉ p) :
+    ∃ s r', printReaction tok true false r = some s ∧ toReaction .none tok s = .ok r' ∧
+      r'.param = some p ∧ Reaction.eq r' r = true := by
+  obtain ⟨s, hs, hparse⟩ := parse_print_param htok hre hpr hir hip heff hparam hpt hps
+  refine ⟨s, _, hs, hparse, rfl, ?_⟩
+  simp [Reaction.eq, dictEq_refl, hir, hip, hparam, dictEq]
+
+/-- **multi-line systems**: `ReactionSystem.from_string` hands to the reaction parser exactly the lines that are not
+blank and do not start (after stripping) with the comment token, in order — for every list of lines. -/
+theorem system_lines_read (ls : List Str) (hne : ls ≠ []) (h : ∀ l ∈ ls, '\n' ∉ l) :
+    systemLines Printing.commentTokens (joinStrs ['\n'] ls) =
+      ls.filter (fun r => strip r != [] && !(startsWith ['#'] (strip r))) := by
+  have split : ∀ (ls : List Str), ls ≠ [] → (∀ l ∈ ls, '\n' ∉ l) → pySplit ['\n'] (joinStrs ['\n'] ls) = ls := by
+    intro ls
+    induction ls with
+    | nil => intro h; exact absurd rfl h
+    | cons l ls ih =>
+      intro _ hl
+      have h1 : isInfixB ['\n'] l = false :=
+        isInfixB_false_of_not_mem (by simp) (fun c hc => by simp only [List.mem_singleton]; intro e; subst e; exact hl _ (by simp) hc)
+      cases ls with
+      | nil => simpa [joinStrs] using pySplit_none h1
+      | cons m ls =>
+        simp only [joinStrs]
+        rw [pySplit_first _ (by simp) (by simpa using h1), ih (by simp) (fun x hx => hl x (by simp [hx]))]
+  unfold systemLines
+  rw [systemSep_is.1, split ls hne h, commentTokens_is]
+  simp
+
+/-! ### the code as it is: quirks of the pinned source, proved on concrete witnesses (reported in notes/C12.md) -/
+
+/-- a line with a second arrow is accepted and everything after the second arrow is silently dropped -/
+theorem second_arrow_dropped_witness :
+    (toReaction .none "->".toList "A -> B -> C".toList).toOption.map (fun r => (keysOf r.reac, keysOf r.prod))
+      = some ([['A']], [['B']]) := by decide +kernel
+
+/-- `substance_keys` given as a single word (a `str` without a space) is used as a SUBSTRING test -/
+theorem single_word_allowed_is_substring_witness :
+    (toReaction (Allowed.ofStr "H2O".toList) "->".toList "H2 -> O".toList).toOption.map (fun r => keysOf r.reac)
+      = some [['H', '2']] := by decide +kernel
+
+/-- a printed name is read back as the parameter text (`str(r)` / `ReactionSystem.string()` of a named reaction) -/
+theorem printed_name_read_as_param_witness :
+    (printReaction "->".toList true true ⟨[(['A'], Coef.ofNat 1)], [(['B'], Coef.ofNat 1)], [], [], none, some "foo".toList⟩).bind
+      (fun s => (toReaction .none "->".toList s).toOption.map (fun r => r.param)) = some (some "foo".toList) := by
+  decide +kernel
+
+/-- the header line of a named system is handed to the reaction parser (→ "Missing token") -/
+theorem named_system_header_witness :
+    (printSystem "->".toList true true (some "sys".toList) [⟨[(['A'], Coef.ofNat 1)], [(['B'], Coef.ofNat 1)], [], [], none, none⟩]).map
+      (fun s => (systemFromString .none "->".toList s).toOption.isNone) = some true := by decide +kernel
+
+/-- explicit zero coefficients are not printed, so such a reaction does not survive the round trip -/
+theorem zero_coefficient_not_printed_witness :
+    (printReaction "->".toList false false ⟨[(['A'], Coef.ofNat 0), (['B'], Coef.ofNat 1)], [(['C'], Coef.ofNat 1)], [], [], none, none⟩)
+      = some "B -> C".toList := by decide +kernel
+
+/-! ### the hypotheses are satisfiable: concrete non-trivial instances -/
+
+/-- `(NH4)2SO4 + (2 H2O) -> 2 NH4+ + SO4-2 + NH4+` : a bracket-leading key, an inactive group, a repeated species -/
+def exReac : List Term :=
+  [⟨"(NH4)2SO4".toList, 1, .omit, false⟩, ⟨"H2O".toList, 2, .plain, true⟩]
+def exProd : List Term :=
+  [⟨"NH4+".toList, 2, .plain, false⟩, ⟨"SO4-2".toList, 1, .omit, false⟩, ⟨"NH4+".toList, 1, .star, false⟩]
+
+example : writeLine "->".toList exReac exProd = "(NH4)2SO4 + (2 H2O) -> 2 NH4+ + SO4-2 + 1 * NH4+".toList := by decide
+example : tokOK "->".toList = true ∧ tokOK "=".toList = true := by decide
+example : (∀ t ∈ exReac, t.ok "->".toList = true) ∧ (∀ t ∈ exProd, t.ok "->".toList = true) := by decide
+example : hasEffect exReac exProd = true := by decide
+example : count false "NH4+".toList exProd = 3 ∧ count true "H2O".toList exReac = 2 := by decide
+
+/-- `(NH4)2SO4 + 3 H2O` as a printable side -/
+def exDict : Dict := [("(NH4)2SO4".toList, Coef.ofNat 1), ("H2O".toList, Coef.ofNat 3)]
+example : GoodDict "->".toList exDict :=
+  ⟨⟨by decide, ⟨by decide, trivial⟩⟩, by
+    intro kv hkv
+    simp only [exDict, List.mem_cons, List.not_mem_nil, or_false] at hkv
+    rcases hkv with rfl | rfl
+    · exact ⟨1, by decide, rfl, by decide, by decide⟩
+    · exact ⟨3, by decide, rfl, by decide, by decide⟩⟩
+example : Tight "1.5e-07".toList := ⟨by decide, by intro c hc; simp at hc; subst hc; decide, by intro c hc; simp at hc; subst hc; decide⟩
+
 end ChemModel.C12
